@@ -75,6 +75,9 @@ type vcInput struct {
 	ByzAfter bool      `json:"byzafter"`  // Byzantine validators keep acting during the suffix
 	RandTail int       `json:"randtail"`  // random steps appended to every TLC schedule
 	Dups     int       `json:"dups"`      // every Dups-th delivery of a schedule (chosen by a hash of position and message) is made twice
+	Routine  bool      `json:"routine"`   // every node runs the real receiveRoutine on a real WAL (zz_verif_cons_routine_test.go); enables "Restart" steps
+	Stamp    int       `json:"stamp"`     // routine mode: block parts carry the receiver's round + Stamp (the sender's round is what the reactor stamps)
+	Restarts int       `json:"restarts"`  // routine mode, random walks: one in Restarts steps is a Restart (0 = never)
 }
 
 // ---------------------------------------------------------------- net
@@ -123,6 +126,8 @@ type vcNode struct {
 	slot     vcSlot // emulation of the ticker's single slot (consensus/ticker.go)
 	panicked string // reason class if a handleMsg/handleTimeout call panicked ("none" otherwise)
 	blockNames map[*types.Block]string // block objects of the state machine -> BlockID name of the parts they came from
+	rt         *vcRoutine              // routine mode only
+	replayErr  string                  // routine mode: error of the last catchupReplay ("" if none)
 }
 
 // call f under recover(); production would crash the process here, the driver records it
@@ -185,6 +190,9 @@ type vcNet struct {
 	bound     int
 	gstOn     bool
 	plan      []vcStep // follow-up steps of a coordinated adversarial move (walker)
+	stamp     int32    // routine mode: round offset stamped on delivered block parts
+	restarts  int
+	claimViaQueue bool // how the reactor hands a +2/3 claim to the state machine (observed once per process)
 }
 
 func vcKey(m vcMsg) string { return m.T + "|" + m.Src + "|" + strconv.Itoa(m.R) + "|" + m.V }
@@ -302,6 +310,8 @@ func vcNewNet(t *testing.T, in *vcInput, runID int) *vcNet {
 	if in.SyncMax > 0 {
 		net.bound = in.SyncMax
 	}
+	net.stamp, net.restarts = int32(in.Stamp), in.Restarts
+	net.claimViaQueue = vcClaimViaQueue
 	n := len(in.Powers)
 	gvals := make([]types.GenesisValidator, n)
 	keys := map[string]ed25519.PrivKey{}
@@ -364,6 +374,19 @@ func vcNewNet(t *testing.T, in *vcInput, runID int) *vcNet {
 			fpv.Save()
 			pv = fpv
 		}
+		if in.Routine {
+			cc.SetWalFile(fmt.Sprintf("%s/%s-wal/wal", net.tmpdir, name))
+			node.rt = &vcRoutine{conf: &c, blockDB: dbm.NewMemDB(), walFile: cc.WalFile()}
+			if in.FilePV {
+				node.rt.keyFile = fmt.Sprintf("%s/%s-key.json", net.tmpdir, name)
+				node.rt.stFile = fmt.Sprintf("%s/%s-state.json", net.tmpdir, name)
+			} else {
+				node.rt.pv = pv
+			}
+			net.nodes[name] = node
+			net.startRoutineNode(node, false)
+			continue
+		}
 		cs := newStateWithConfigAndBlockStore(&c, st.Copy(), &vcSigner{PrivValidator: pv, node: node},
 			kvstore.NewApplication(), dbm.NewMemDB())
 		cs.SetLogger(log.NewNopLogger())
@@ -420,6 +443,10 @@ func vcNewNet(t *testing.T, in *vcInput, runID int) *vcNet {
 
 func (net *vcNet) close() {
 	for _, n := range net.nodes {
+		if n.rt != nil {
+			net.stopRoutineNode(n)
+			continue
+		}
 		if n.cs.eventBus != nil {
 			_ = n.cs.eventBus.Stop()
 		}
@@ -860,13 +887,22 @@ func (net *vcNet) step(w *vcWriter, run int, st vcStep) bool {
 			if st.M.T == "claim_precommit" {
 				vt = tmproto.PrecommitType
 			}
-			n.guarded(func() {
-				n.cs.mtx.Lock()
-				_ = n.cs.Votes.SetPeerMaj23(int32(st.M.R), vt, p2p.ID(st.M.Src), bid)
-				n.cs.mtx.Unlock()
-			})
+			if net.claimViaQueue {
+				// the reactor hands the claim to the state machine through the peer queue (observed, see vcProbeClaimPath)
+				n.handle(msgInfo{Msg: &VoteSetMaj23Message{Height: 1, Round: int32(st.M.R), Type: vt, BlockID: bid}, PeerID: p2p.ID(st.M.Src)}, false)
+			} else {
+				n.guarded(func() {
+					// routine mode: the parked routine holds cs.mtx on the driver's behalf
+					if n.rt == nil {
+						n.cs.mtx.Lock()
+						defer n.cs.mtx.Unlock()
+					}
+					_ = n.cs.Votes.SetPeerMaj23(int32(st.M.R), vt, p2p.ID(st.M.Src), bid)
+				})
+			}
 			ev["m"] = st.M
 			ev["peer"] = st.M.Src
+			ev["logged"] = net.claimViaQueue
 			break
 		}
 		it, ok := net.concretize(st.M)
@@ -879,9 +915,9 @@ func (net *vcNet) step(w *vcWriter, run int, st vcStep) bool {
 				mi.PeerID = p2p.ID(it.m.Src)
 			}
 			if bp, isPart := mi.Msg.(*BlockPartMessage); isPart {
-				mi.Msg = &BlockPartMessage{Height: bp.Height, Round: n.cs.Round, Part: bp.Part}
+				mi.Msg = &BlockPartMessage{Height: bp.Height, Round: n.cs.Round + net.stamp, Part: bp.Part}
 			}
-			n.guarded(func() { n.cs.handleMsg(mi) })
+			n.handle(mi, false)
 		}
 		ev["m"] = it.m
 		if it.m.T == "block" {
@@ -897,7 +933,7 @@ func (net *vcNet) step(w *vcWriter, run int, st vcStep) bool {
 		n.inq = n.inq[1:]
 		for _, mi := range it.msgs {
 			mi := mi
-			n.guarded(func() { n.cs.handleMsg(mi) })
+			n.handle(mi, true)
 		}
 		ev["m"] = it.m
 		ev["peer"] = st.N
@@ -914,7 +950,14 @@ func (net *vcNet) step(w *vcWriter, run int, st vcStep) bool {
 		ti := timeoutInfo{Duration: 0, Height: 1, Round: round, Step: vcStepOfKind(st.K)}
 		ev["m"] = vcMsg{T: "-", Src: "-", R: int(round), V: "-", Pol: -2}
 		ev["k"] = st.K
-		n.guarded(func() { n.cs.handleTimeout(ti, n.cs.RoundState) })
+		n.fire(ti)
+	case "Restart":
+		if n.rt == nil || n.cs.Height != 1 || n.cs.blockStore.Height() >= 1 {
+			return false
+		}
+		net.restart(n)
+		ev["m"] = vcMsg{T: "-", Src: "-", R: -1, V: "-", Pol: -2}
+		ev["nosched"] = true
 	default:
 		return false
 	}
@@ -939,6 +982,14 @@ func (net *vcNet) step(w *vcWriter, run int, st vcStep) bool {
 	}
 	ev["signs"] = signs
 	ev["inqlen"] = len(n.inq)
+	if st.Name == "Restart" {
+		ev["replayErr"] = n.replayErr
+		q := []vcMsg{}
+		for _, it := range n.inq {
+			q = append(q, it.m)
+		}
+		ev["inq"] = q
+	}
 	w.emit(ev)
 	if !wasDecided && n.cs.blockStore.Height() >= 1 {
 		n.decided = true
@@ -1139,6 +1190,18 @@ func (net *vcNet) enabledSteps(rng *rand.Rand) []vcStep {
 			}
 		}
 	}
+	if net.restarts > 0 && rng.Intn(net.restarts) == 0 {
+		live := []string{}
+		for _, nn := range net.corr {
+			n := net.nodes[nn]
+			if n.rt != nil && n.panicked == "none" && n.cs.Height == 1 && n.cs.blockStore.Height() < 1 {
+				live = append(live, nn)
+			}
+		}
+		if len(live) > 0 {
+			return []vcStep{{Name: "Restart", N: live[rng.Intn(len(live))], M: vcMsg{T: "-", Src: "-", R: -1, V: "-", Pol: -2}, K: "-"}}
+		}
+	}
 	cands := net.candidates(rng)
 	if len(cands) == 0 {
 		return nil
@@ -1197,6 +1260,13 @@ func TestVerifCons(t *testing.T) {
 	}
 	defer f.Close()
 	w := &vcWriter{f: f, enc: json.NewEncoder(f)}
+	{
+		old := verifStepHook
+		verifStepHook = vcStepHook
+		defer func() { verifStepHook = old }()
+		vcClaimViaQueue = vcProbeClaimPath(t)
+		_ = os.WriteFile(outDir+"/claimpath.json", []byte(fmt.Sprintf("{\"claim_via_queue\": %v}", vcClaimViaQueue)), 0o644)
+	}
 	skipped, executed := 0, 0
 	run := 0
 	var skipLog *json.Encoder
@@ -1207,7 +1277,7 @@ func TestVerifCons(t *testing.T) {
 	for _, s := range in.Scheds {
 		run++
 		net := vcNewNet(t, &in, run)
-		w.emit(net.resetEvent(run, map[string]interface{}{"sched": s.ID, "kind": "tlc"}))
+		w.emit(net.resetEvent(run, map[string]interface{}{"sched": s.ID, "kind": "tlc", "routine": in.Routine, "stamp": in.Stamp, "filepv": in.FilePV}))
 		for si, st := range s.Steps {
 			if net.step(w, run, st) {
 				executed++
@@ -1247,7 +1317,7 @@ func TestVerifCons(t *testing.T) {
 	for k := 0; k < in.Random; k++ {
 		run++
 		net := vcNewNet(t, &in, run)
-		w.emit(net.resetEvent(run, map[string]interface{}{"sched": -1, "kind": "random"}))
+		w.emit(net.resetEvent(run, map[string]interface{}{"sched": -1, "kind": "random", "routine": in.Routine, "stamp": in.Stamp, "filepv": in.FilePV}))
 		for i := 0; i < in.RandLen; i++ {
 			steps := net.enabledSteps(rng)
 			if len(steps) == 0 {
@@ -1279,3 +1349,5 @@ func vcHash(i int, k string) uint32 {
 }
 
 var _ = cfg.DefaultConfig
+
+var vcClaimViaQueue bool
